@@ -1,5 +1,6 @@
 import CLModel.Proofs.Primary
 import CLModel.Proofs.NeComplete
+import CLModel.Proofs.Complete
 import CLModel.Proofs.FourSq
 import Driver.ProveOps
 import CLModel.Props.C03
@@ -196,6 +197,148 @@ theorem ne_complete_four_squares (m : OvfMode) (pk : PubKey G) (p : Pred)
   obtain ⟨init, prf, h1, h2, h3, _, _⟩ := ne_complete enc m Drv.fourSq pk p mTilde vals tp eq c av
     mt uf rf utf rtf hval hav hpv hholds hfs hmt heqm hr hut hrt hnn
   exact ⟨init, prf, h1, h2, h3⟩
+
+/-- `eq_complete` with the blinder and response maps exposed -/
+theorem eq_complete' (pk : PubKey G) (sig : Signature G) (un rev : List String)
+    (rf : String → G) (val : String → ℤ) (vals : Values) (common : List (String × ℤ))
+    (m2Tilde c : ℤ) (tp : EqTape)
+    (hr : Maps pk.r (un ++ rev) rf) (hv : Maps vals (un ++ rev) val)
+    (hsig : SigValid pk sig rf val (un ++ rev))
+    (hrange : 0 ≤ c * (sig.e - 2 ^ Gen.largeEStartValueExp) + tp.eTilde ∧
+              c * (sig.e - 2 ^ Gen.largeEStartValueExp) + tp.eTilde < 2 ^ (Gen.LARGE_ETILDE + 1)) :
+    ∃ init prf, initEqProof (addOps enc) common pk sig un m2Tilde tp = .ok init ∧
+      finalizeEqProof init c un rev vals = .ok prf ∧
+      verifyEquality (addOps enc) pk prf c un = .ok init.t ∧
+      prf.revealed = rev.map (fun k => (k, val k)) ∧
+      init.mTilde = getMtilde tp.mTilde un common ∧
+      prf.m = un.map (fun k => (k, c * val k + mtOf tp.mTilde common k)) := by
+  have hun : ∀ k ∈ un, k ∈ un ++ rev := fun k hk => by simp [hk]
+  have hrev : ∀ k ∈ rev, k ∈ un ++ rev := fun k hk => by simp [hk]
+  have hmt := getMtilde_maps tp.mTilde un common
+  have hrun : Maps pk.r un rf := hr.mono hun
+  -- the prover's first message
+  have hinit : initEqProof (addOps enc) common pk sig un m2Tilde tp = .ok
+      ⟨tp.r • pk.s + sig.a,
+       m2Tilde • pk.rctxt + (tp.vTilde • pk.s + (tp.eTilde • (tp.r • pk.s + sig.a)
+          + (un.map fun k => mtOf tp.mTilde common k • rf k).sum)),
+       tp.eTilde, sig.e - 2 ^ Gen.largeEStartValueExp, tp.vTilde, sig.v - sig.e * tp.r,
+       getMtilde tp.mTilde un common, m2Tilde, sig.m2⟩ := by
+    simp only [initEqProof, addOps_pow, Outcome.bind_ok, addOps_mul,
+      calcTeq_value enc pk _ _ _ _ _ un rf _ hrun hmt, Outcome.map_ok]
+  refine ⟨_, ⟨rev.map (fun k => (k, val k)), tp.r • pk.s + sig.a,
+      c * (sig.e - 2 ^ Gen.largeEStartValueExp) + tp.eTilde,
+      c * (sig.v - sig.e * tp.r) + tp.vTilde,
+      un.map (fun k => (k, c * val k + mtOf tp.mTilde common k)),
+      c * sig.m2 + m2Tilde⟩, hinit, ?_, ?_, rfl, rfl, rfl⟩
+  · -- the responses
+    simp only [finalizeEqProof, mHats_value c _ vals _ val un un (fun _ h => h) hmt (hv.mono hun),
+      Outcome.bind_ok, revealedWithValues_value vals val rev (un ++ rev) hrev hv, Outcome.map_ok]
+  · -- the verifier's recomputation
+    have hnot : ¬ (c * (sig.e - 2 ^ Gen.largeEStartValueExp) + tp.eTilde < 0 ∨
+        c * (sig.e - 2 ^ Gen.largeEStartValueExp) + tp.eTilde ≥ 2 ^ (Gen.LARGE_ETILDE + 1)) := by
+      omega
+    have hmhat := maps_map_self (fun k => c * val k + mtOf tp.mTilde common k) un
+    have hrevm := maps_map_self val rev
+    simp only [verifyEquality, verifyEqualityCore, hnot, if_false,
+      calcTeq_value enc pk _ _ _ _ _ un rf _ hrun hmhat, Outcome.bind_ok, addOps_pow,
+      keys_map_self, mulPows_sum enc pk.r _ rf val rev _ (hr.mono hrev) hrevm, addOps_inv,
+      addOps_mul]
+    congr 1
+    rw [hsig]
+    simp only [List.map_append, List.sum_append]
+    rw [sum_split]
+    module
+
+
+/-- **a whole one-credential presentation is complete**: for every key, every credential
+satisfying the CL equation with `e` in its prescribed interval, every request (any revealed
+subset, any number of true predicates over i32 values on hidden attributes, all four types),
+any declared common attributes among the hidden ones, every blinder of the prescribed sizes,
+every nonce and EVERY hash function with 256-bit output, the model prover's presentation
+(`proveSingle`: first messages, Fiat–Shamir challenge, responses — with the model of the
+library's own `four_squares`) is accepted by the model verifier (`verify`: request consistency,
+common-attribute pass, range check, equality and predicate recomputation, final hash). -/
+theorem presentation_complete (H : List ByteArray → ℤ) (hH : ∀ bs, 0 ≤ H bs ∧ H bs < 2 ^ 256)
+    (m : OvfMode) (pk : PubKey G) (sig : Signature G) (schema nonSchema : List String)
+    (req : SubProofRequest) (pts : List (Pred × NeTape)) (hreq : req.predicates = pts.map (·.1))
+    (common : List (String × ℤ)) (rf : String → G) (val : String → ℤ) (vals : Values)
+    (m2Tilde : ℤ) (tp : EqTape) (nonce : ByteArray) (hasRKey hasRegKey : Bool)
+    (hr : Maps pk.r (unrevealedOf schema nonSchema req.revealed ++ req.revealed) rf)
+    (hv : Maps vals (unrevealedOf schema nonSchema req.revealed ++ req.revealed) val)
+    (hsig : SigValid pk sig rf val (unrevealedOf schema nonSchema req.revealed ++ req.revealed))
+    (he : 2 ^ 596 ≤ sig.e ∧ sig.e < 2 ^ 596 + 2 ^ 119) (ht : 0 ≤ tp.eTilde ∧ tp.eTilde < 2 ^ 456)
+    (hpreds : ∀ pt ∈ pts, PredOk (unrevealedOf schema nonSchema req.revealed) val pt)
+    (hcommon : ∀ a ∈ keys common, a ∈ unrevealedOf schema nonSchema req.revealed) :
+    ∃ prf, proveSingle (addOps enc) H m Drv.fourSq common pk sig
+        (unrevealedOf schema nonSchema req.revealed) req.revealed pts vals m2Tilde tp nonce = .ok prf ∧
+      verify H m (keys common)
+        [⟨addOps enc, pk, schema, nonSchema, req, hasRKey, false, hasRegKey⟩] prf nonce = .ok true := by
+  set un := unrevealedOf schema nonSchema req.revealed with hun
+  have hunm : ∀ k ∈ un, k ∈ un ++ req.revealed := fun k hk => by simp [hk]
+  -- the equality part, for whatever the challenge turns out to be
+  have heqc : ∀ c : ℤ, 0 ≤ c ∧ c < 2 ^ 256 →
+      ∃ init prf, initEqProof (addOps enc) common pk sig un m2Tilde tp = .ok init ∧
+        finalizeEqProof init c un req.revealed vals = .ok prf ∧
+        verifyEquality (addOps enc) pk prf c un = .ok init.t ∧
+        prf.revealed = req.revealed.map (fun k => (k, val k)) ∧
+        init.mTilde = getMtilde tp.mTilde un common ∧
+        prf.m = un.map (fun k => (k, c * val k + mtOf tp.mTilde common k)) := by
+    intro c hc
+    have hrange := honest_e_in_range c sig.e tp.eTilde hc he ht
+    exact eq_complete' enc pk sig un req.revealed rf val vals common m2Tilde c tp hr hv hsig
+      (by simpa [Gen.largeEStartValueExp, Gen.LARGE_ETILDE, Gen.LARGE_E_START] using hrange)
+  have hvun : Maps vals un val := hv.mono hunm
+  -- first messages (independent of the challenge)
+  obtain ⟨init, prf0, hi, hf0, _, _, hmt0, hm0⟩ := heqc 0 ⟨le_refl _, by positivity⟩
+  have hmtM : Maps init.mTilde un (mtOf tp.mTilde common) := by
+    rw [hmt0]; exact getMtilde_maps tp.mTilde un common
+  obtain ⟨nis, _, hnis, _, _, _⟩ := preds_complete enc m pk init.mTilde vals prf0 0 (le_refl _) un val
+    (mtOf tp.mTilde common) hvun hmtM (by rw [hm0]; exact maps_map_self _ un) pts hpreds
+  -- the challenge
+  set c : ℤ := H ((proverTaus init nis).map (addOps enc).enc ++
+    (proverCList init nis).map (addOps enc).enc ++ [nonce]) with hcdef
+  have hc := hH ((proverTaus init nis).map (addOps enc).enc ++
+    (proverCList init nis).map (addOps enc).enc ++ [nonce])
+  rw [← hcdef] at hc
+  obtain ⟨init', prf, hi', hf, hve, hrev, _, hm⟩ := heqc c hc
+  have hii : init' = init := by rw [hi] at hi'; cases hi'; rfl
+  subst hii
+  obtain ⟨nis', nes, hnis', hfp, hvn, hpr⟩ := preds_complete enc m pk init'.mTilde vals prf c hc.1 un
+    val (mtOf tp.mTilde common) hvun hmtM (by rw [hm]; exact maps_map_self _ un) pts hpreds
+  have hnn : nis' = nis := by rw [hnis] at hnis'; cases hnis'; rfl
+  subst hnn
+  refine ⟨{ proofs := [{ eq := prf, ne := nes, hasNonRevoc := false, nrTaus := .ok [] }],
+            cHash := c, cList := (proverCList init' nis').map (addOps enc).enc }, ?_, ?_⟩
+  · simp only [proveSingle, hi', Outcome.bind_ok, hnis', ← hcdef, hf, hfp, Outcome.map_ok]
+  · -- the verifier
+    have hcons : pairConsistent (G := G) { eq := prf, ne := nes, hasNonRevoc := false, nrTaus := .ok [] }
+        ⟨addOps enc, pk, schema, nonSchema, req, hasRKey, false, hasRegKey⟩ = true := by
+      simp only [pairConsistent, hrev, keys_map_self, sameSet_self, hpr, hreq, predSameSet_self,
+        Bool.and_self]
+    have hall : (keys common).all (fun a => un.contains a) = true := by
+      simp only [List.all_eq_true, List.contains_iff_mem]
+      exact hcommon
+    obtain ⟨seen', hcp⟩ := commonPass_succeeds (keys common) prf (keys common) []
+      (fun a ha => by rw [hm, lookup_map_self _ un a (hcommon a ha)]; rfl)
+      (fun a v h => by simp [lookup] at h)
+    simp only [verify, verifyTranscript, List.length_cons, List.length_nil, bne_self_eq_false,
+      Bool.false_eq_true, if_false, allPairsConsistent, hcons, Bool.and_self, Bool.not_true,
+      verifyLoop, Bool.false_and, Bool.and_false, Bool.not_false, ← hun, hall, hcp, Outcome.bind_ok,
+      verifyPrimaryProof, hve, hvn, Outcome.map_ok]
+    have hitems : ([] ++ List.map (fun g => Item.bytes ((addOps enc).enc g))
+          (init'.t :: List.flatMap (fun x => x.tauList) nis') ++ [] ++
+        List.map Item.bytes (List.map (addOps enc).enc (proverCList init' nis')) ++
+        [Item.bytes nonce])
+        = List.map Item.bytes ((proverTaus init' nis').map (addOps enc).enc ++
+            (proverCList init' nis').map (addOps enc).enc ++ [nonce]) := by
+      simp [proverTaus, List.map_map, Function.comp_def]
+    rw [hitems]
+    have := allBytes_bytes ((proverTaus init' nis').map (addOps enc).enc ++
+        (proverCList init' nis').map (addOps enc).enc ++ [nonce]) []
+    simp only [List.append_nil] at this
+    rw [this]
+    simp only [allBytes, Option.map_some, List.append_nil, ← hcdef, beq_self_eq_true]
+
 
 /-! non-vacuity: a concrete key, credential and tape over `ℤ` (toy group) -/
 example : SigValid (G := ℤ) ⟨1, 100, 2, [("a", 3), ("b", 5)]⟩ ⟨4, 7, 5, 9⟩
